@@ -57,6 +57,6 @@ Section Model.
   Definition c_1_tau : T := ofD O 5734161139222659 (-55).    (* = 0x145f306dc9c883 * 2^-55 *)
   Definition c_tau : T := ofD O 884279719003555 (-47).     (* = 0x1921fb54442d18 * 2^-50, odd mantissa form *)
 
-  Definition lpf_gen (fc ts : T) : T := ts / (c_1_tau / fc + ts).
-  Definition hpf_gen (fc ts : T) : T := #1 / (c_tau * fc * ts + #1).
+  Definition lpf_gen (fc ts : T) : T := #1 / (c_1_tau / (fc * ts) + #1).      (* after the fix: the product fc*ts first *)
+  Definition hpf_gen (fc ts : T) : T := #1 / (c_tau * (fc * ts) + #1).
 End Model.
